@@ -169,6 +169,14 @@ func main() {
 	os.Exit(code)
 }
 
+func traceKeys(ts []*opTrace) string {
+	var ks []string
+	for _, t := range ts {
+		ks = append(ks, t.key())
+	}
+	return strings.Join(ks, " | ")
+}
+
 func onlyUnknowns(in []string) bool {
 	for _, s := range in {
 		if !strings.Contains(s, "unknown") {
@@ -355,13 +363,17 @@ func (w *World) runHarness(h *Harness, workers int, solverKind string, nvalid in
 		for _, t := range traceSet {
 			ts = append(ts, t)
 		}
-		cr := composeAll(ts, "z3new", timeout)
+		maxN := 2
+		if w.tier == "thorough" {
+			maxN = 3
+		}
+		cr := composeAll(ts, "z3new", timeout, maxN)
 		res.Compose = cr
 		res.Obligations += cr.Pairs
 		res.Discharged += cr.Unsat
 		res.Queries += cr.Pairs
 		if cr.Unknown > 0 {
-			res.Inconcl = append(res.Inconcl, fmt.Sprintf("scheduler composition: %d trace pairs unknown", cr.Unknown))
+			res.Inconcl = append(res.Inconcl, fmt.Sprintf("scheduler composition: %d trace tuples unknown", cr.Unknown))
 		}
 		if len(ts) == 0 {
 			res.Inconcl = append(res.Inconcl, "scheduler composition: no request traces extracted")
@@ -372,15 +384,16 @@ func (w *World) runHarness(h *Harness, workers int, solverKind string, nvalid in
 		for _, c := range cr.CEs {
 			// the counterexample for the native concurrent driver: schedule and the two traces as an nd vector
 			ce := &CounterExample{Harness: h.Name + "_replay", Obligation: "C12.conc.single-refresh-all-served-newest-tokens", Kind: "assert",
-				Msg: fmt.Sprintf("interleaving of two requests violates the property (%s): A=%s B=%s schedule=%v", c.Why, c.A.key(), c.B.key(), c.Schedule), Pos: h.Name}
+				Msg: fmt.Sprintf("interleaving of %d requests violates the property (%s): traces=%s schedule=%v", len(c.Traces), c.Why, traceKeys(c.Traces), c.Schedule), Pos: h.Name}
 			add := func(tag string, v int) {
 				ce.ND = append(ce.ND, ndEntry{Seq: len(ce.ND), Kind: "choice", Tag: tag, Val: v})
 			}
+			add("requests", len(c.Traces)-2)
 			add("schedule-len", len(c.Schedule))
 			for _, w := range c.Schedule {
 				add("who", w)
 			}
-			for k, t := range []*opTrace{c.A, c.B} {
+			for k, t := range c.Traces {
 				add(fmt.Sprintf("trace%d-len", k), len(t.Ops))
 				for _, o := range t.Ops {
 					add("op-"+o.Name, o.Res)
